@@ -3,6 +3,7 @@ from . import common as C, gen_int as G, oracles as O
 
 LEAN_MODULE = "Urandom.Props.C06"
 RULE = ("requests: index(len) for len in {0,1,2,..,2^63+k,usize::MAX}, choose/choose_mut on slices of 0..40 elements, single on collections of 0..40 items with exact (slice, Vec, custom), inexact (lower/upper bound, Filter) and missing size hints (the reservoir path with Float01 words at and around the 1/i thresholds); "
+        "extra: exact outcome counts over complete one-draw grids (shortcut paths) and a frequency test under real generators (all hint kinds incl. the reservoir path; alarm only beyond a 1e-12 chi-square bound); "
         "words at the ends of the acceptance interval of the chosen position; non-trivial = collection non-empty or the None path; distinct = distinct request line")
 ASSUMPTIONS = []
 
@@ -28,4 +29,17 @@ def oracle(req, impl, build):
 def extra(binary, build, tier, rng):
     from .enum_oracle import run_enum
     specs = [(kind, n, 0, 60, 1) for kind in ("choose", "single", "index") for n in (1, 2, 3, 4, 5, 6, 10, 12, 15, 20, 30, 60)]
-    return run_enum(binary, specs, "enumerated-draws")
+    yield from run_enum(binary, specs, "enumerated-draws")
+    # exact-size hints other than the slice iterator take the same shortcut: same exact counts
+    specs = [("single", n, 0, 60, 1, h) for h in ("vec", "exact") for n in (1, 2, 3, 5, 6, 12, 60)]
+    yield from run_enum(binary, specs, "enumerated-draws")
+    # the reservoir path (inexact, lower-bound, missing hints; Filter, Chain) and the shortcut under real generators: frequency test
+    from .stat_oracle import run_stat, samples_for
+    specs = []
+    for h in ("none", "lower", "upper", "filter", "chain", "exact", None):
+        for n in ((2, 3, 4, 5, 7) if tier == "quick" else (1, 2, 3, 4, 5, 6, 7, 8, 11, 16, 25)):
+            specs.append(("single", n, 0, samples_for("single", n, 0, tier), rng.u64(), h, rng.choice(["xoshiro", "splitmix", "wyrand", "chacha8"])))
+    for n in (2, 3, 7):
+        specs.append(("choose", n, 0, samples_for("choose", n, 0, tier), rng.u64(), None, None))
+        specs.append(("index", n, 0, samples_for("index", n, 0, tier), rng.u64(), None, None))
+    yield from run_stat(binary, specs, "frequency-test-samples", build)
